@@ -58,3 +58,16 @@ Proof.
       + rewrite IH by auto. rewrite Z.add_0_l. reflexivity. }
   rewrite G by (left; reflexivity). reflexivity.
 Qed.
+
+Example tm_bool_example :
+  let f := {| shape := [4]; data := [1; 0; 1; 1] |} in let t := {| shape := [3]; data := [1; 0; 1] |} in
+  Forall bit01 (data f) /\ Forall bit01 (data t) /\
+  template_match DBool ExtendNearest f t = [1; 0; 1; 1] /\
+  map (ssd_spec ExtendNearest f t) (all_positions (shape f)) = [2; 0; 2; 1].
+Proof.
+  cbv zeta. split; [|split; [|split]].
+  - repeat (constructor; [unfold bit01; auto|]). constructor.
+  - repeat (constructor; [unfold bit01; auto|]). constructor.
+  - vm_compute. reflexivity.
+  - vm_compute. reflexivity.
+Qed.
